@@ -43,6 +43,22 @@ public:
     void drop(const char *tag) { tables.erase(tagof(tag)); }
     bool has(const char *tag) const { return tables.count(tagof(tag)) != 0; }
 
+    // the tables as an sfnt file image (checksums are not computed: nothing in the library reads them)
+    std::string to_sfnt() const {
+        auto p16 = [](std::string &o, unsigned v) { o += char(v >> 8); o += char(v); };
+        auto p32 = [&](std::string &o, uint32_t v) { p16(o, v >> 16); p16(o, v & 0xFFFF); };
+        const unsigned n = unsigned(tables.size());
+        unsigned sr = 1, es = 0; while (sr * 2 <= n) { sr *= 2; ++es; }
+        std::string o; p32(o, 0x00010000); p16(o, n); p16(o, sr * 16); p16(o, es); p16(o, n * 16 - sr * 16);
+        size_t off = 12 + 16 * size_t(n); std::string body;
+        for (auto &t : tables) {
+            p32(o, t.first); p32(o, 0); p32(o, uint32_t(off + body.size())); p32(o, uint32_t(t.second.size()));
+            body.append((const char *)t.second.data(), t.second.size());
+            while (body.size() & 3) body += char(0);
+        }
+        return o + body;
+    }
+
     ~TableFace() { for (auto &b : bufs) munmap(b.map, b.maplen); }
 
     size_t outstanding() const { size_t k = 0; for (auto &b : bufs) if (!b.released) ++k; return k; }
